@@ -382,7 +382,7 @@ func textBounds(tier string) mergeBounds {
 	return mergeBounds{maxLen1: 3, triples: nil, modes: []uint32{1, 2, 1024, 1026}, depth2: true, d2Menu: []int{0, 1, 2, 3, 4, 5, 6, 7}, depth3: true, fullDrops: false}
 }
 
-var mergeRule = "explicit-state exploration of the merge state space on the real code: states = segments reachable from an 8-item segment menu (frequencies / lengths / location values at varint boundaries; empty batch; single doc with a single-hit-eligible term; two 2-doc batches with identical field lists (byte-copy paths); overlapping field list with a composite field whose locations name other fields; disjoint field list with long array positions and the empty term; 3-doc batch with a field-less document and an id shared with another item), each input built in memory or persisted+re-opened; transitions = Merge(ordered list of <=3 states, one drop bitmap per input) for EVERY drop vector over {nil, empty, every subset} at depth 1, and {nil, empty, singletons, complements, all} for inputs with >3 documents at depth >= 2; chunk modes as bounded. Depth-1 results are deduplicated by canonical state key (semantic dump + per-term single-hit encoding class + chunk mode) computed from the reference model and cross-checked against the key observed on the implementation; each distinct state is merged again (alone, with menu items on either side) at depth 2 (and once more at depth 3 in thorough). A successor is computed by replaying the whole expression on fresh objects. Non-trivial = merge with >= 1 survivor."
+var mergeRule = "explicit-state exploration of the merge state space on the real code: states = segments reachable from an 8-item segment menu (frequencies / lengths / location values at varint boundaries; empty batch; single doc with a single-hit-eligible term; two 2-doc batches with identical field lists (byte-copy paths); overlapping field list with a composite field whose locations name other fields; disjoint field list with long array positions and the empty term; 3-doc batch with a field-less document and an id shared with another item), each input built in memory or persisted+re-opened; transitions = Merge(ordered list of <=3 states, one drop bitmap per input) for EVERY drop vector over {nil, empty, every subset} at depth 1, and {nil, empty, singletons, complements, all} for inputs with >3 documents at depth >= 2; chunk modes as bounded. Depth-1 results are deduplicated by canonical state key (semantic dump + per-term single-hit encoding class + chunk mode) computed from the reference model and cross-checked against the key observed on the implementation; each distinct state is merged again (alone, with menu items on either side) at depth 2 (and once more at depth 3 in thorough). A successor is computed by replaying the whole expression on fresh objects. Plus a 'big' family: merges of 600..1030-document segments (and a one-document segment lacking the term) whose surviving cardinality of a term crosses 1024 - the boundary of the cardinality-dependent chunk-size rules - through inputs and drops, in both input orders, in memory and re-opened, chunk modes 1024/1025/1026, incl. a second merge of a result sitting at the boundary. Non-trivial = merge with >= 1 survivor."
 
 func init() {
 	for _, which := range []string{"C05", "C06"} {
@@ -399,6 +399,7 @@ func init() {
 			New: func() interface{} { return &enum.MergeCase{} },
 			Gen: func(tier string, emit func(interface{})) {
 				genMerges("text", textBounds(tier), func(c enum.MergeCase) { emit(c) })
+				genBigMerges(tier, func(c enum.MergeCase) { emit(c) })
 			},
 			Run: runMerge(which),
 		})
@@ -428,4 +429,60 @@ func init() {
 		},
 		Run: runMerge("C13"),
 	})
+}
+
+// genBigMerges: merges in which the surviving cardinality of a term crosses 1024
+// (chunk-size rule boundary) through the combination of inputs and drops.
+func genBigMerges(tier string, emit func(enum.MergeCase)) {
+	first := func(k int) []int {
+		d := make([]int, k)
+		for i := range d {
+			d[i] = i * 3 % 601 // spread, distinct for k <= 200
+		}
+		seen := map[int]bool{}
+		out := d[:0]
+		for _, x := range d {
+			if !seen[x] {
+				seen[x] = true
+				out = append(out, x)
+			}
+		}
+		return out
+	}
+	mk := func(ins []enum.Expr, drops [][]int) enum.Expr {
+		ok := make([]bool, len(ins))
+		for i := range drops {
+			ok[i] = drops[i] != nil
+		}
+		return enum.Expr{In: ins, Drops: drops, DropOK: ok}
+	}
+	modes := []uint32{1025, 1026, 1024}
+	for _, mode := range modes {
+		for _, opened := range []bool{false, true} {
+			L := func(i int) enum.Expr { return enum.L(i, opened) }
+			var es []enum.Expr
+			for _, k := range []int{0, 5, 6, 7, 10} { // 1030-k survivors: crosses 1024 between k=6 and k=7
+				es = append(es, mk([]enum.Expr{L(0), L(1)}, [][]int{nil, first(k)}))
+				es = append(es, mk([]enum.Expr{L(1), L(0)}, [][]int{first(k), nil}))
+				es = append(es, mk([]enum.Expr{L(1)}, [][]int{first(k)}))
+			}
+			for _, k := range []int{0, 175, 176, 177} { // 1200-k survivors
+				es = append(es, mk([]enum.Expr{L(2), L(2)}, [][]int{first(k), nil}))
+				es = append(es, mk([]enum.Expr{L(0), L(2), L(2)}, [][]int{nil, nil, first(k)}))
+			}
+			for _, k := range []int{0, 3, 4} { // 1020 + 600 - ... and 1020+1 doc without x
+				es = append(es, mk([]enum.Expr{L(3), L(0)}, [][]int{first(k), {}}))
+				es = append(es, mk([]enum.Expr{L(0), L(3), L(0)}, [][]int{{0}, first(k), nil}))
+			}
+			// a second merge of a result that sits exactly at the boundary
+			at := mk([]enum.Expr{L(0), L(1)}, [][]int{nil, first(6)})
+			es = append(es, mk([]enum.Expr{at}, [][]int{first(1)}), mk([]enum.Expr{at, L(0)}, [][]int{nil, nil}))
+			for _, e := range es {
+				emit(enum.MergeCase{Menu: "big", Mode: mode, E: e})
+			}
+			if tier == "quick" && mode == 1024 {
+				break
+			}
+		}
+	}
 }
